@@ -69,7 +69,7 @@ def collect(pid, tier, seed, d):
         c = r["cfg"]
         return (c["S"] * c["per"] * c["rounds"] <= 8 and max(c["W"], 1) <= 3
                 and not any(e["ev"] in ("hang", "stuck", "race", "panic") for e in r["h"]))
-    tv_n, tv_ok, tv_states, tv_trans = trace_validate(d, "TracePool", hist, keep=small, shards=4)
+    tv_n, tv_ok, tv_states, tv_trans = trace_validate(d, "TracePool", hist, keep=small, shards=4, limit=600 if tier == "quick" else 6000)
     states += tv_states; transitions += tv_trans
     unexplained = tv_n - len(tv_ok)
     mc_info.append({"spec": "TracePool (trace validation of recorded histories)", "histories": tv_n, "explained": len(tv_ok),
